@@ -481,6 +481,10 @@ impl Driver {
             (map[0].to_string(), map[1].to_string(), map[2..].iter().map(|s| s.to_string()).collect())
         };
         let line = st.span().start().line;
+        // a generated record leaves out the fields whose type is outside the subset (then it cannot be constructed)
+        let has_opaque = generated && fields.iter().any(|(_, t)| matches!(t, Ty::Opaque(_)));
+        let ctor = if has_opaque { "-".to_string() } else { ctor };
+        let projs: Vec<String> = fields.iter().zip(projs).map(|((_, t), p)| if generated && matches!(t, Ty::Opaque(_)) { "-".to_string() } else { p }).collect();
         let info = StructInfo {
             name: name.to_string(),
             coq_ty,
@@ -874,8 +878,12 @@ impl Driver {
                     writeln!(out, "(* struct {} ({}) = model record {} (constructor {}, projections {}) *)", s.name, s.origin, s.coq_ty, s.ctor, s.fields.iter().map(|f| format!("{}:{}", f.name, f.proj)).collect::<Vec<_>>().join(" ")).unwrap();
                 } else {
                     writeln!(out, "(* struct {} ({}) *)", s.name, s.origin).unwrap();
-                    let fs: Vec<String> = s.fields.iter().map(|f| Ok(format!("{} : {}", f.proj, self.tables.coq_ty(&f.ty)?))).collect::<R<Vec<_>>>()?;
-                    writeln!(out, "Record {} : Type := {} {{ {} }}.", s.coq_ty, s.ctor, fs.join("; ")).unwrap();
+                    let fs: Vec<String> = s.fields.iter().filter(|f| f.proj != "-").map(|f| Ok(format!("{} : {}", f.proj, self.tables.coq_ty(&f.ty)?))).collect::<R<Vec<_>>>()?;
+                    let ctor = if s.ctor == "-" { format!("Build_{}", s.coq_ty) } else { s.ctor.clone() };
+                    if s.ctor == "-" {
+                        writeln!(out, "(* fields outside the subset are left out: {} *)", s.fields.iter().filter(|f| f.proj == "-").map(|f| f.name.clone()).collect::<Vec<_>>().join(", ")).unwrap();
+                    }
+                    writeln!(out, "Record {} : Type := {} {{ {} }}.", s.coq_ty, ctor, fs.join("; ")).unwrap();
                 }
             }
             Adt::Enum(e) => {
